@@ -24,6 +24,9 @@ type Opts struct {
 	// actions return a nil interface value (the way side-effect-only actions do). The node is
 	// still built and logged; the start rule's node is still kept in p.res.
 	NilMask uint64
+	// RecoverLA: the action of a production "@error TOKEN" hands that token back to the parser with
+	// recoverLookahead when the token's input index is even (the documented use of that method).
+	RecoverLA bool
 }
 
 // NilRules lists the rules that return nil under mask: rules with the bit set that are never the
@@ -139,6 +142,18 @@ type prs struct {
 	reads    int
 	ntoks    int
 	errToks  []int
+	expected []string // Error.Expected of every Error an action received, as "tok:id,id,..."
+}
+
+func (p *prs) noteExpected(e Error) {
+	s := itoa(e.Token.Idx) + ":"
+	for i, x := range e.Expected {
+		if i > 0 {
+			s += ","
+		}
+		s += itoa(x)
+	}
+	p.expected = append(p.expected, s)
 }
 
 func (p *prs) step() {
@@ -273,6 +288,7 @@ type Result struct {
 	Errs     int
 	FirstErr int
 	ErrToks  []int
+	Expected []string
 	Tree     string
 	Front    []int
 	Log      []string
@@ -285,6 +301,7 @@ func Run(toks []int, limit int) (r Result) {
 	defer func() {
 		r.FirstErr, r.Reads, r.Errs, r.Steps = p.firstErr, p.reads, p.errs, p.steps
 		r.ErrToks = p.errToks
+		r.Expected = p.expected
 		r.Log = p.log
 		if x := recover(); x != nil {
 			switch x := x.(type) {
@@ -359,12 +376,15 @@ func (p *prs) _onBounds(r any, begin, end Token) {
 			b.WriteString("\tp.step()\n")
 			for i, t := range p.Terms {
 				if t.Kind == KErr {
-					fmt.Fprintf(&b, "\tp.errs++\n\tp.errToks = append(p.errToks, a%d.Token.Idx)\n\tif p.firstErr == -2 {\n\t\tp.firstErr = a%d.Token.Idx\n\t}\n", i, i)
+					fmt.Fprintf(&b, "\tp.errs++\n\tp.noteExpected(a%d)\n\tp.errToks = append(p.errToks, a%d.Token.Idx)\n\tif p.firstErr == -2 {\n\t\tp.firstErr = a%d.Token.Idx\n\t}\n", i, i, i)
 				} else if t.Name == "ERROR" && t.Kind == KOpt {
-					fmt.Fprintf(&b, "\tif a%d.Token != (Token{}) || a%d.Expected != nil {\n\t\tp.errs++\n\t\tp.errToks = append(p.errToks, a%d.Token.Idx)\n\t\tif p.firstErr == -2 {\n\t\t\tp.firstErr = a%d.Token.Idx\n\t\t}\n\t}\n", i, i, i, i)
+					fmt.Fprintf(&b, "\tif a%d.Token != (Token{}) || a%d.Expected != nil {\n\t\tp.errs++\n\t\tp.noteExpected(a%d)\n\t\tp.errToks = append(p.errToks, a%d.Token.Idx)\n\t\tif p.firstErr == -2 {\n\t\t\tp.firstErr = a%d.Token.Idx\n\t\t}\n\t}\n", i, i, i, i, i)
 				} else if t.Name == "ERROR" {
-					fmt.Fprintf(&b, "\tfor _, e := range a%d {\n\t\tp.errs++\n\t\tp.errToks = append(p.errToks, e.Token.Idx)\n\t\tif p.firstErr == -2 {\n\t\t\tp.firstErr = e.Token.Idx\n\t\t}\n\t}\n", i)
+					fmt.Fprintf(&b, "\tfor _, e := range a%d {\n\t\tp.errs++\n\t\tp.noteExpected(e)\n\t\tp.errToks = append(p.errToks, e.Token.Idx)\n\t\tif p.firstErr == -2 {\n\t\t\tp.firstErr = e.Token.Idx\n\t\t}\n\t}\n", i)
 				}
+			}
+			if o.RecoverLA && len(p.Terms) == 2 && p.Terms[0].Kind == KErr && p.Terms[1].Kind == KSym && p.Terms[1].IsTok {
+				b.WriteString("\tif a1.Idx%2 == 0 {\n\t\tp.recoverLookahead(a1.ID, a1)\n\t\tp.log = append(p.log, \"R\"+itoa(a1.Idx))\n\t}\n")
 			}
 			fmt.Fprintf(&b, "\tp.seq++\n\tn := &nodeT{Rule: %q, ID: p.seq, Kids: []any{%s}}\n", r.Name, strings.Join(kids, ", "))
 			b.WriteString("\tp.log = append(p.log, \"A#\"+itoa(n.ID))\n")
@@ -410,6 +430,7 @@ type Result struct {
 	Errs     int
 	FirstErr int
 	ErrToks  []int
+	Expected []string
 	Tree     string
 	Front    []int
 	Log      []string
